@@ -195,15 +195,13 @@ fn check_program(idx: u64, rules: &[Rule], rbc: Option<u8>, layout: Layout, word
         return;
     }
     if oracle_loop {
-        // every reported pair must itself be a pair that never terminates
-        for e in &errs {
-            let x = e.starting_pair.0.map(|c| c.0 as i32).unwrap_or(256);
-            let y = e.starting_pair.1 .0;
-            if !sim.contains(&(x, y)) {
-                acc.fail(idx, case_json(rules, rbc, layout, json!({"kind": "compile"})), format!("reported starting pairs are among the non-terminating pairs {sim:?}"), format!("{errs:?}"), "a pair that terminates is reported as the start of an infinite loop");
-                acc.class("loop: reported pair terminates");
-                return;
-            }
+        // Which pair is named in the report is not part of the statement ("reports an infinite loop
+        // exactly when ... some character pair never terminate"): recorded as an outcome class only.
+        let all_nonterminating = errs.iter().all(|e| sim.contains(&(e.starting_pair.0.map(|c| c.0 as i32).unwrap_or(256), e.starting_pair.1 .0)));
+        if !all_nonterminating {
+            acc.count("info_reported_pair_terminates");
+            acc.class("loop reported, a named starting pair terminates by itself");
+            return;
         }
         acc.class("loop reported");
         return;
